@@ -231,14 +231,12 @@ theorem parsePointer_utf8 (p : Bytes) (toks : List Bytes) (hp : Spec.parsePointe
     · rename_i hc
       simp only [ne_eq, Decidable.not_not] at hc
       subst hc
-      split at hp
-      · cases hp
-      · simp only [Option.some.injEq] at hp
-        subst hp
-        rw [isValidUtf8_ascii_cons 47 cs (by decide)] at hv
-        intro t ht
-        obtain ⟨q, hq, rfl⟩ := List.mem_map.1 ht
-        exact decodeTok_utf8 _ q (Nat.le_refl _) (splitOnSlash_utf8 _ cs (Nat.le_refl _) hv q hq)
+      simp only [Option.some.injEq] at hp
+      subst hp
+      rw [isValidUtf8_ascii_cons 47 cs (by decide)] at hv
+      intro t ht
+      obtain ⟨q, hq, rfl⟩ := List.mem_map.1 ht
+      exact decodeTok_utf8 _ q (Nat.le_refl _) (splitOnSlash_utf8 _ cs (Nat.le_refl _) hv q hq)
 
 namespace Impl
 
